@@ -199,6 +199,13 @@ Proof.
   - intros Hin. apply (completion_predicates_defined _ _ _ q HD Hin). intros Hi. exact (Hio q Hi Hq).
 Qed.
 
+Corollary output_in_completion_validated t P G D q :
+  c_io_disjoint t = true -> TauStar.tau_star P = Some G ->
+  completion (rp_theory (task_placeholders t) G) (task_inputs t) = Some D ->
+  In q (ug_output_predicates (et_user_guide t)) ->
+  (In q (theory_predicates D) <-> In q (program_preds P)).
+Proof. intros H. apply output_in_completion, c_io_disjoint_spec, H. Qed.
+
 Theorem translate_meaning_full t P G th :
   is_tight P = true ->
   (forall r h, In r P -> head_pred (rhead r) = Some h -> ~ In h (task_inputs t)) ->
